@@ -71,6 +71,12 @@ CLAIMED["C10"] = dict(
    note="Not decided: the hand-written gradient rules of Fock-space displacement and squeezing (their amplitudes are transcendental in the parameter, no exact lattice tangent) and batched states.",
    technique="exact tangent semantics in TLA+ (TLC-checked, exported) compared with TensorFlow / JAX automatic derivatives, eager and compiled",
    engine="PqOpticsGrad")
+CLAIMED["C15"] = dict(
+   category="exploration", design_ref="§3 C15",
+   text="The specification decides the input side and the exact structural facts, not floating-point factorisations: PqDecomp.tla (on PqGaussian) carries the accumulated ladder matrix Stot of lattice programs; TLC proves on every reachable state (d=1,2,3, depth 2-3, every ordered mode tuple) that Stot is symplectic, that Stot Vac Stot^dagger is the state, that the anomalous block <a_i a_j> is symmetric, that passive programs have a unitary passive block and that unitary programs give pure states. Each reachable state is an exact, structured and usually degenerate input (equal squeezings, permutation / block-diagonal / identity / one-mode unitaries, pure covariances with symplectic spectrum hbar of full multiplicity, thermal ones); the implementation's clements / inverse_clements / instruction list / weight round trip, takagi, williamson, euler and graph embedding are run on them and the defining relations are evaluated on their outputs at 1e-7 (plus permutation, diagonal and block-diagonal unitaries up to d=5, their symmetrisations as Takagi inputs with repeated and zero singular values, and every graph on <= 4 vertices).",
+   note="Model-based exploration, not a proof: the reconstruction identities are numeric predicates on the outputs; inputs are on the lattice (exact) and up to dimension 6 (real form).",
+   technique="TLC-enumerated exact structured inputs with TLC-proved structure (symplectic, pure, symmetric); defining relations of each decomposition evaluated on the implementation's output",
+   engine="PqDecomp")
 CLAIMED["C05"] = dict(
    category="model_checking", design_ref="§3 C05",
    text="PqOptics.tla models loss as the unitary dilation (beamsplitter onto a fresh ancilla) and post-selection as projection; TLC checks NormIsOne, NormAtMostOne, ChainRule and SeqEqJoint on every reachable spec state and exports exact states. Replay on PassiveSimulator: get_particle_detection_probability, fock_probabilities_map, marginals on every mode subset, state_vector and norm against the marginal of the exact dilation (1e-9), and the dilation program itself on PureFockSimulator amplitude by amplitude.",
